@@ -24,6 +24,13 @@ def auto (fuel : Nat) (s : S) : S :=
   | 0 => s
   | n + 1 => if autoPc s.pc then (match fire variant s (.step true) with | some s' => auto n s' | none => s) else s
 
+/-- the gated harness waits, after every service shutdown, until the stale fatal-error hand-over goroutines have exited
+(it looks for them in the goroutine dump): in gated histories every stale hand-over gives up before the next label -/
+def drainStale (fuel : Nat) (s : S) : S :=
+  match fuel with
+  | 0 => s
+  | n + 1 => if s.nStale > 0 then (match fire variant s .giveUp with | some s' => drainStale n s' | none => s) else s
+
 def fires (s : S) (ls : List Label) : Option S := ls.foldlM (fun s l => fire variant s l) s
 
 def isort (l : List Nat) : List Nat := l.foldl (fun acc x => (acc.filter (· ≤ x)) ++ [x] ++ (acc.filter (· > x))) []
@@ -96,7 +103,7 @@ def handler : Handler DS where
       match r with
       | none => ({ d with s := none, why := "-".intercalate toks }, if noobs then [] else ["obs bad-op-or-label-not-enabled " ++ "-".intercalate toks])
       | some s' =>
-        let s' := auto 8 s'
+        let s' := drainStale 8 (auto 8 s')
         ({ d with s := some s' }, if noobs then [] else [showObs s'])
   onObs := fun d toks =>
     match toks with
